@@ -77,15 +77,17 @@ def summarise(chk, units, results):
 def run(chk, tier, proof_ok):
     tbl = _c16.table_obligations('C19', chk)
     _c16.record_table(chk, tbl)
-    full = tier == 'thorough' or not proof_ok or bool(tbl['failed'])
-    units = alias.c19_cases(chk.seed, tier, full)
-    results = alias.run_units(units, min(16, os.cpu_count() or 1))
+    trouble = not proof_ok or bool(tbl['failed'])
+    procs = min(16, os.cpu_count() or 1)
+    units = alias.c19_cases(chk.seed, tier, False)
+    results = alias.run_units(units, procs)
+    findings = _c16.collect(results)
+    if trouble and not findings and tier != 'thorough':
+        # an obligation broke and the light search found no failing input: the full search
+        more = alias.c19_cases(chk.seed + 1, 'thorough', True)
+        units, results = units + more, results + alias.run_units(more, procs)
+        findings = _c16.collect(results)
     summarise(chk, units, results)
-    findings = []
-    for f, _ in results:
-        for key, text, payload in f:
-            if not any(k == key for k, _, _ in findings):
-                findings.append((key, text, payload))
     for key, text, payload in findings:
         chk.violation(key, text, payload, True)
     broken = []
